@@ -47,6 +47,12 @@ Events (first element = tag):
     ('scrib', mode, t, 0)                                  harness level: the caller overwrites every buffer it handed to
                                                            express so far.  Model and specification see neither (names are
                                                            values there; a scrib only advances the clock)
+    ('pkt', d, form, t, 0) / ('via', wrap, t, 0) / ('iopt', i, opts, t, 0)
+                                                           harness level (harness/props/_dress.py): what the packet of data id d
+                                                           looks like (MetaInfo, Content, signature kind), how the NEXT Data / Nack
+                                                           is delivered (bare / inside an NDNLPv2 LpPacket with header fields),
+                                                           which further parameters the Express of i carries (MustBeFresh,
+                                                           HopLimit).  Model and specification see none of them
 Verdicts: v2: 0 FAIL 1 TIMEOUT 2 SILENCE 3 PASS 4 ALLOW_BYPASS 5 (raise TimeoutError);  v1: index into V1_VALUES.
 In every place of a verdict (vmode ('imm', v), 'vdone', 'interest', 'ivdone') v may also be 'raise:<Class>': the validator
 TERMINATES WITH AN EXCEPTION of that class instead of answering (raise_outcomes(): every exception class ndn.types defines
@@ -60,6 +66,7 @@ import logging
 
 from harness.lib import vtloop
 from harness.props import _namebufs as NB
+from harness.props import _dress as DR
 
 # the incoming Interest being processed: (k, verdict, deferred).  Set when the packet is handed to the application; the
 # task the application creates for it (submit_interest) inherits the context, so a validator / handler that runs later -
@@ -138,18 +145,23 @@ def nack_reason_value(reason):
     return reason
 
 
-def nack_wire(interest_wire, reason):
+def nack_wire(interest_wire, reason, via=None):
     """LpPacket{Nack{[NackReason]}, Fragment{interest}}; the plain-int form goes through the library's encoder,
-    the other forms are encoded here (LpPacket 0x64, Nack 0x0320, NackReason 0x0321, Fragment 0x50)."""
+    the other forms are encoded here (LpPacket 0x64, Nack 0x0320, NackReason 0x0321, Fragment 0x50).  With a delivery
+    `via` (_dress.VIA_NAMES) other than 'bare' / 'lp' the further NDNLPv2 header fields of that delivery stand around the
+    Nack header (type-number order)."""
     from harness.lib import gen as G
+    plain = via in (None, 'bare', 'lp')
     if not isinstance(reason, (tuple, list)):
-        from ndn.encoding import make_network_nack
-        return bytes(make_network_nack(interest_wire, reason))
-    if reason[0] == 'absent':
+        if plain:
+            from ndn.encoding import make_network_nack
+            return bytes(make_network_nack(interest_wire, reason))
+        hdr = G.tlv(0x0321, DR._nni(int(reason)))
+    elif reason[0] == 'absent':
         hdr = b''
     else:
         hdr = G.tlv(0x0321, int(reason[1]).to_bytes(reason[2], 'big'))
-    return G.tlv(0x64, G.tlv(0x0320, hdr) + G.tlv(0x50, bytes(interest_wire)))
+    return DR.lp_wrap(interest_wire, via, nack_header=G.tlv(0x0320, hdr))
 
 
 # value boundaries of the NackReason number (0 = None, the three reasons forwarders send, widths 1/2/4/8)
@@ -160,15 +172,15 @@ NACK_FORMS = ([('absent',)] + NACK_VALUES
 NACK_POOL = [50, 100, 150, 0, ('absent',), 0, ('absent',), 1, 255, 256, ('wide', 0, 2), ('wide', 150, 4), 1 << 32]
 
 
-def data_wire(d, name):
-    """Deterministic Data packet for data id d (DigestSha256 signed, content identifies d)."""
-    from ndn.encoding import make_data, MetaInfo
-    from ndn.security import DigestSha256Signer
-    return bytes(make_data([comp(k) for k in name], MetaInfo(), b'data-%d' % d, signer=DigestSha256Signer()))
+def data_wire(d, name, form=None):
+    """The Data packet of data id d (default dress: MetaInfo with ContentType 0, DigestSha256 signed, content identifies d;
+    otherwise the form (meta, content, sig) of harness/props/_dress.py)."""
+    return DR.wire(d, [comp(k) for k in name], tuple(name), tuple(form) if form is not None else DR.DEFAULT_FORM)
 
 
-def data_hash(d, name):
-    return hashlib.sha256(data_wire(d, name)).digest()
+def data_hash(d, name, form=None):
+    """The implicit digest: SHA-256 of the BARE Data packet, whatever it is delivered in."""
+    return hashlib.sha256(data_wire(d, name, form)).digest()
 
 
 class RecFace:
@@ -210,8 +222,9 @@ class DummyRegisterer:
 
 
 class World:
-    def __init__(self, frontend, dig_of):
-        """dig_of: data id -> (name) so that implicit digests can be computed before the Data exists."""
+    def __init__(self, frontend, dig_of, forms=None):
+        """dig_of: data id -> (name) so that implicit digests can be computed before the Data exists.
+        forms: data id -> (meta, content, sig) of _dress.py for the ids that are not the default packet."""
         import ndn.utils
         self.fe = frontend
         self.loop = vtloop.new_loop(1000.0)
@@ -229,6 +242,10 @@ class World:
             self.mod = appv1
             self.app = appv1.NDNApp(face=self.face, keychain=object())
         self.dig_of = dig_of
+        self.forms = dict(forms or {})
+        self.next_via = None       # delivery of the next Data / Nack event ('via')
+        self.iopts = {}            # i -> further Interest parameters of the next Express of i ('iopt')
+        self.key2d = {}            # what a validator can tell a Data by (data_key) -> data id
         self.coros = {}
         self.tasks = {}
         self.completion = {}       # i -> (kind, payload, time)
@@ -308,7 +325,10 @@ class World:
         fe = self.fe
 
         async def validator(name, sig, ctx=None):
-            d = self.sig2d.get(bytes(sig.signature_value_buf)) if sig.signature_value_buf is not None else None
+            try:
+                d = self.key2d.get(self.data_key(name, sig))
+            except Exception:      # noqa
+                d = None
             self.vcalls.append((i, d))
             if vmode[0] == 'imm':
                 v = vmode[1]
@@ -318,6 +338,39 @@ class World:
                 v = await fut
             return self.verdict_value(v)
         return validator
+
+    @staticmethod
+    def data_key(name, sig):
+        """What identifies a Data towards a validator (which sees the name and the signature pointers): the signature value;
+        for an empty one (null signature) the octets the signature covers; for an unsigned Data its name (_dress.fix_forms:
+        at most one unsigned id per name and history)."""
+        from ndn.encoding import Name
+        v = sig.signature_value_buf
+        if v is not None and len(v) > 0:
+            return ('s', bytes(v))
+        if sig.signature_info is not None:
+            return ('c', b''.join(bytes(x) for x in sig.signature_covered_part))
+        return ('n', bytes(Name.to_bytes(name)))
+
+    def identify(self, i, content):
+        """The data id an Interest was completed with, as b'data-<d>': read off the content when it names the id, otherwise
+        (no / empty Content) the Data the validator of i was last asked about; the content handed to the caller must be
+        the content of that packet."""
+        c = bytes(content) if content is not None else None
+        d = None
+        if c and c.startswith(b'data-'):
+            try:
+                d = int(c.split(b'-')[1])
+            except ValueError:
+                d = None
+        else:
+            d = next((x for j, x in reversed(self.vcalls) if j == i and x is not None), None)
+        if d is None:
+            return None
+        want = DR.content_bytes(d, self.forms.get(d, DR.DEFAULT_FORM)[1])
+        if (c or b'') != (want or b''):
+            return None
+        return b'data-%d' % d
 
     def verdict_value(self, v):
         if is_raise(v):
@@ -338,7 +391,7 @@ class World:
             return None
         if dig == 'x':
             return b'\xee' * 32
-        return data_hash(dig, self.dig_of[dig])
+        return data_hash(dig, self.dig_of[dig], self.forms.get(dig))
 
     def full_name(self, name, dig):
         from ndn.encoding import Component
@@ -351,15 +404,21 @@ class World:
         n0 = self.full_name(name, dig)
         val = self.make_validator(i, vmode)
         kind = self.reprs.pop(i, None)
+        opts = self.iopts.pop(i, ())
+        kw = {}
+        if 'mbf' in opts:
+            kw['must_be_fresh'] = True
+        if 'hop' in opts:
+            kw['hop_limit'] = 5
 
         def fn():
             # the representation is built AT express time (a shared receive buffer is rewritten for this very call)
             n = n0 if kind is None else self.nb.represent(i, n0, kind, dig is not None)
             if self.fe == 'v2':
-                self.coros[i] = self.app.express(n, val, lifetime=life, can_be_prefix=cbp, nonce=1000 + i)
+                self.coros[i] = self.app.express(n, val, lifetime=life, can_be_prefix=cbp, nonce=1000 + i, **kw)
             else:
                 self.coros[i] = self.app.express_interest(n, validator=val, lifetime=life, can_be_prefix=cbp,
-                                                          nonce=1000 + i)
+                                                          nonce=1000 + i, **kw)
         return fn
 
     def ev_await(self, i):
@@ -375,13 +434,18 @@ class World:
                         name, content, _ctx = r
                     else:
                         name, _mi, content = r
-                    self.completion[i] = ('data', bytes(content), self.now())
+                    ident = self.identify(i, content)
+                    if ident is None:
+                        self.completion[i] = ('error', 'data-or-content-never-delivered',
+                                              self.now())
+                    else:
+                        self.completion[i] = ('data', ident, self.now())
                 except BaseException as e:      # noqa
-                    self.completion[i] = self.classify(e) + (self.now(),)
+                    self.completion[i] = self.classify(e, i) + (self.now(),)
             self.tasks[i] = self.loop.create_task(waiter())
         return fn
 
-    def classify(self, e):
+    def classify(self, e, i=None):
         from ndn import types as T
         if isinstance(e, T.InterestTimeout):
             return ('timeout', None)
@@ -391,16 +455,20 @@ class World:
             return ('cancelled', None)
         if isinstance(e, T.ValidationFailure):
             res = getattr(e, 'result', None)
-            return ('invalid', (bytes(e.content) if e.content is not None else None,
-                                res.name if hasattr(res, 'name') else repr(res)))
+            return ('invalid', (self.identify(i, e.content), res.name if hasattr(res, 'name') else repr(res)))
         return ('error', type(e).__name__)
 
     def ev_data(self, d, name):
-        wire = data_wire(d, name)
+        wire = data_wire(d, name, self.forms.get(d))
         from ndn.encoding import parse_data
-        _, _, _, sig = parse_data(wire)
-        self.sig2d[bytes(sig.signature_value_buf)] = d
-        return self.recv(6, wire)
+        pname, _, _, sig = parse_data(wire)
+        self.key2d[self.data_key(pname, sig)] = d
+        if sig.signature_value_buf is not None:
+            self.sig2d[bytes(sig.signature_value_buf)] = d
+        via, self.next_via = self.next_via, None
+        if via in (None, 'bare'):
+            return self.recv(6, wire)
+        return self.recv(100, DR.lp_wrap(wire, via))
 
     def recv(self, typ, wire):
         """The library's _receive never suspends on the Data / Nack / Interest paths (the awaited callees have no
@@ -420,8 +488,10 @@ class World:
 
     def ev_nack(self, name, dig, reason):
         from ndn.encoding import make_interest, InterestParam
-        iw = make_interest(self.full_name(name, dig), InterestParam(nonce=7, lifetime=4000))
-        return self.recv(100, nack_wire(iw, reason))
+        via, self.next_via = self.next_via, None
+        flags = DR.nack_interest_flags(via) if via not in (None, 'bare') else {}
+        iw = make_interest(self.full_name(name, dig), InterestParam(nonce=7, lifetime=4000, **flags))
+        return self.recv(100, nack_wire(iw, reason, via))
 
     def ev_vdone(self, i, v):
         def fn():
@@ -615,6 +685,14 @@ class World:
         if tag == 'repr':
             self.reprs[ev[1]] = ev[2]
             return
+        if tag == 'pkt':
+            return                 # collected before the run (run_impl): one id = one packet in the whole history
+        if tag == 'via':
+            self.next_via = ev[1]
+            return
+        if tag == 'iopt':
+            self.iopts[ev[1]] = tuple(ev[2])
+            return
         if tag == 'scrib':
             self.position(ev[2], 0)
             self.apply(lambda: self.nb.scribble(ev[1]), 0)
@@ -748,7 +826,7 @@ def run_impl(frontend, history):
             dig_of[ev[4]] = ev[2]
         if ev[0] == 'nack' and isinstance(ev[2], int) and ev[2] not in dig_of:
             dig_of[ev[2]] = ev[1]
-    w = World(frontend, dig_of)
+    w = World(frontend, dig_of, DR.forms_of(history))
     try:
         return w.run(history)
     finally:
@@ -805,7 +883,7 @@ def m_event(fe, ev):
         return [0, [10, ev[1], ev[2]]]
     if tag == 'scrib':
         return [0, [7, ev[2]]]        # names are values in the model: a rewrite of the caller's buffers only lets time pass
-    if tag == 'repr':
+    if tag == 'repr' or tag in DR.HARNESS_TAGS:
         return None
     raise ValueError(tag)
 
@@ -1539,7 +1617,7 @@ def open_alias_shape(ctx, fe, h, changes):
 
 
 def check_history(ctx, fe, h, tag, prop, with_oracle=True):
-    h = fix_digest_names(h)
+    h = DR.fix_forms(fix_digest_names(h))
     m = run_model(ctx, fe, h)
     r = canon_impl(fe, run_impl(fe, h))
     wf = is_wf(h)
